@@ -22,6 +22,7 @@ ensure_repo_on_path()
 
 import aws_durable_execution_sdk_python.concurrency.executor as sdk_executor  # noqa: E402
 import aws_durable_execution_sdk_python.concurrency.models as sdk_models  # noqa: E402
+import aws_durable_execution_sdk_python.context as sdk_context  # noqa: E402
 import aws_durable_execution_sdk_python.state as sdk_state  # noqa: E402
 import aws_durable_execution_sdk_python.threading as sdk_threading  # noqa: E402
 from aws_durable_execution_sdk_python import exceptions as sdk_exc  # noqa: E402
@@ -54,7 +55,7 @@ D.rebind_sdk()
 from .simbackend import FAULT_CLASSES, TERMINAL, Backend, FakeBoto  # noqa: E402
 from .values import from_tagged, teq, to_tagged  # noqa: E402
 
-LINE_MODULES = {"state": sdk_state, "threading": sdk_threading, "executor": sdk_executor, "models": sdk_models}
+LINE_MODULES = {"state": sdk_state, "threading": sdk_threading, "executor": sdk_executor, "models": sdk_models, "context": sdk_context}
 
 
 class UserError(Exception):
